@@ -231,3 +231,16 @@ META["C18"] = M(
          "end; flatten/unflatten round trip with leaf identity and single-leaf substitution for every kind; and the round trip "
          "re-run in fresh interpreters after instantiating kinds in different orders (verdicts compared across orders); "
          "distinct = pool member + dtype + history")
+
+META["C19"] = M(
+    shards={"quick": 16, "thorough": 32}, budget={"quick": 60, "thorough": 600},
+    floors={"quick": {"evals": 300, "distinct": 100}, "thorough": {"evals": 1200, "distinct": 100}},
+    required=["no-densification-event", "peak-memory-bounded", "result-correct", "structural-rule-selected"],
+    rule="large structured operators (Kronecker with 2-4 factors, KronSum, BlockDiag with multiplicities 40-120, Diagonal / "
+         "ScalarMul / Identity / Permutation / Tridiagonal with n 2000-4000, and products / sums / scalar multiples of a "
+         "Kronecker operator with a Diagonal; n >= 512 and n^2 >= 1000 x the factor storage) x every entry point with a "
+         "structural rule (@ with 1 and 3 columns, left product, inv, solve, logdet/slogdet, diag, trace, sqrt/isqrt/pow/exp/"
+         "log/apply_unary, cholesky, plu), each called with and without the optional algorithm argument, under a halt-on-"
+         "error event monitor (to_dense of a large operator, products with >= n/4 columns, generic base case selected for "
+         "the structured operand) and a tracemalloc peak bound of 64 x (operand + factor storage + n) x itemsize; results are "
+         "also compared with a factor-wise reference; distinct = kind x entry point x algorithm variant")
